@@ -222,6 +222,7 @@ func genScenario(t *rapid.T, focus string) Scenario {
 		sc.Modes = append(sc.Modes, rapid.SampledFrom([]string{"Forward", "PackedForward", "CompressedPackedForward"}).Draw(t, "mode"))
 	}
 	sc.Secret = rapid.IntRange(0, 2).Draw(t, "secret") == 0
+	sc.TLS = rapid.IntRange(0, 3).Draw(t, "tls") == 0
 	if rapid.IntRange(0, 3).Draw(t, "rotate") == 0 {
 		sc.RotateMs = rapid.SampledFrom([]int{30, 80, 150, 300}).Draw(t, "rotateMs")
 	}
@@ -343,6 +344,8 @@ func classify(sc Scenario, o *Outcome) (bool, []string) {
 	add(sc.RotateMs > 0, "periodic-reconnection(short maxDuration)")
 	add(sc.Secret && silent, "upstream-accepts-but-never-answers-the-handshake")
 	add(sc.Secret && rejected, "upstream-refuses-the-login")
+	add(sc.TLS, "tls-to-the-upstream")
+	add(sc.TLS && silent, "upstream-accepts-but-never-answers-the-tls-handshake")
 	add(sc.TinyQuota, "tiny-quota")
 	add(len(sc.Modes) > 1, "two-outputs")
 	add(sc.KeyHost, "two-key-fields")
